@@ -5,7 +5,7 @@
 #    neither /repo nor /verif/lean are disturbed
 ID=$1; N=$2; shift 2
 SEEDCOPY=${SEEDCOPY:-/var/tmp/verif-seed}
-D=/tmp/mut-$ID; [ "$N" -ge 3 ] && D=/tmp/mut2-$ID; [ "$N" -ge 5 ] && D=/tmp/mut3-$ID; [ "$N" -ge 7 ] && D=/tmp/mut4-$ID; [ "$N" -ge 9 ] && D=/tmp/mut5-$ID    # round 2 changes are numbered 3, 4; round 3: 5, 6; round 4: 7, 8
+D=/tmp/mut-$ID; [ "$N" -ge 3 ] && D=/tmp/mut2-$ID; [ "$N" -ge 5 ] && D=/tmp/mut3-$ID; [ "$N" -ge 7 ] && D=/tmp/mut4-$ID; [ "$N" -ge 9 ] && D=/tmp/mut5-$ID; [ "$N" -ge 11 ] && D=/tmp/mut6-$ID    # round 2 changes are numbered 3, 4; round 3: 5, 6; round 4: 7, 8
 if [ "$N" = 1 ]; then P=$D/patch.diff; DEMO=demo.c; else P=$D/patch$N.diff; DEMO=demo$N.c; fi
 if [ ! -f $D/$DEMO ]; then if [ "$N" = 1 ]; then DEMO=$(ls $D | grep "^demo\." | head -1); else DEMO=$(ls $D | grep "^demo$N\." | head -1); fi; fi
 WT=/tmp/wts-$ID-$N
